@@ -9,6 +9,7 @@
 
 mod astb;
 mod astjson;
+mod astout;
 mod exec;
 mod fam;
 mod jv;
